@@ -111,7 +111,21 @@ def r_transformable(rule, types=("Interval", "Grad"), root=None):
         fn = transform_fn("f32", root)
         params = [A.binding_name(i["pat"]) for i in fn["sig"]["inputs"] if "pat" in i]
         t = A.ftxt(fn["body"])
-        if "letout=%s.transform_point(&Point3::new(%s,%s,%s));" % (params[3], params[0], params[1], params[2]) in t and t.endswith("(out.x,out.y,out.z)}"):
+        def _f32_point_form():
+            lets = {A.binding_name(l_["pat"]): str(A.ftxt(l_["init"])) for l_ in A.find(fn["body"], "Let") if l_.get("init") is not None and A.binding_name(l_["pat"])}
+            tail = None
+            for leaf_, _cs in A.result_cases(fn["body"]):
+                tail = str(A.ftxt(leaf_))
+            if tail is None:
+                return False
+            for _ in range(4):
+                for n_, v_ in lets.items():
+                    tail = re.sub(r"(?<![\w.])%s(?![\w(])" % re.escape(n_), lambda _m: v_, tail)
+            call = "%s.transform_point(&Point3::new(%s,%s,%s))" % (params[3], params[0], params[1], params[2])
+            comps = [("%s.x,%s.y,%s.z" % (call, call, call)), ("%s[0],%s[1],%s[2]" % (call, call, call)), ("%s.coords.x,%s.coords.y,%s.coords.z" % (call, call, call)), ("%s.coords[0],%s.coords[1],%s.coords[2]" % (call, call, call))]
+            return tail in tuple("(%s)" % c_ for c_ in comps)
+
+        if ("letout=%s.transform_point(&Point3::new(%s,%s,%s));" % (params[3], params[0], params[1], params[2]) in t and t.endswith("(out.x,out.y,out.z)}")) or _f32_point_form():
             rule.ok("f32: transform_point(Point3(x, y, z)) -> (x, y, z)", file=SHAPE, line=fn["ln"])
         elif _transform_by_meaning(rule, fn, "f32", "transform|f32"):
             pass  # written out by hand: compared with the homogeneous transform entry by entry
